@@ -492,23 +492,6 @@ Definition covers_all : bool :=
    && no_unknown_tls_types && CfgTypes_translator_ok)%bool.
 
 (* ------------------------------------------------------------------------------------ witness values *)
-Fixpoint zero_val (T : table) (fuel : nat) (t : ty) : val :=
-  match fuel with
-  | O => VNil
-  | S f =>
-    match t with
-    | TBool => VBool false
-    | TInt => VInt 0
-    | TFloat => VFloat "0"
-    | TStr => VStr ""
-    | TNamed n => match find_struct T n with
-                  | Some sd => VStruct (map (fun fd => zero_val T f (f_ty fd)) (s_fields sd))
-                  | None => VNil
-                  end
-    | TOpaque n => VOpaque n "0"
-    | _ => VNil
-    end
-  end.
 Definition zero_of (n : string) : val := zero_val cfg_structs 16 (TNamed n).
 Definition set_in (n : string) (v : val) (p : list string) (x : val) : val := vset cfg_structs (TNamed n) v p x.
 
